@@ -128,7 +128,11 @@ pub fn record_scenarios(seed: u64, n: usize) -> Result<Vec<J>, String> {
             "ret" => json!({"a": "ret", "e": ev.ev, "f": cps(&ev.func), "n": ev.ordinal, "ok": ev.ok}),
             k => json!({"a": k, "e": ev.ev}),
         }).collect();
-        let mut rec = json!({"env": env, "rules": rules_j, "inputs": inputs.iter().map(to_model).collect::<Vec<_>>(), "schedule": sched, "x": x, "calls": calls, "abs": abs});
+        // the abstract universe has 16 argument ids: a scenario with more distinct arguments (about one in a thousand) is
+        // left to SchedTrace alone
+        let abs_skipped = arg_ids.len() > 16;
+        let abs = if abs_skipped { Vec::new() } else { abs };
+        let mut rec = json!({"env": env, "rules": rules_j, "inputs": inputs.iter().map(to_model).collect::<Vec<_>>(), "schedule": sched, "x": x, "calls": calls, "abs": abs, "abs_skipped": abs_skipped});
         if let Some(p) = bad {
             rec["panic"] = J::from(p);
         }
